@@ -641,7 +641,9 @@ func (g *G) lookupOnlyName() []Stmt {
 func (g *G) counterWrittenByBody() []Stmt {
 	g.feat("cfor-body-writes-counter")
 	i := g.fresh("ic")
-	rd := func(tag string) Stmt { return &ExprStmt{X: &Call{Fn: "rd", Args: []Expr{&StrLit{V: tag}, &Name{N: i}}}} }
+	rd := func(tag string) Stmt {
+		return &ExprStmt{X: &Call{Fn: "rd", Args: []Expr{&StrLit{V: tag}, &Name{N: i}}}}
+	}
 	set := func(at, to int64) Stmt {
 		return &If{Cond: &Binary{Op: "==", L: &Name{N: i}, R: &IntLit{V: at}}, Then: []Stmt{&Assign{LHS: []Expr{&Name{N: i}}, RHS: []Expr{&IntLit{V: to}}}}}
 	}
